@@ -189,6 +189,67 @@ def decodeSimple (numberOfContours : Int) (b : Bytes) : Option Outline :=
             some ⟨splitContours (zip3 (runningSums 0 dx) (runningSums 0 dy) flags) 0 endPts,
               (b.drop (2 * nc + 2)).take il⟩
 
+/-! ## outline → Bézier segments (used only to compare the specification decoder with
+golang.org/x/image/font/sfnt `LoadGlyph` on real fonts; not part of the C11 theorems)
+
+TrueType: "Two consecutive on-curve points define a line segment; off-curve points between
+on-curve points are control points of quadratic Bézier segments; between two consecutive off-curve
+points there is an implied on-curve point at their midpoint.  The sequence may wrap around from
+the last point of the contour to the first; every contour is closed."  The order in which segments
+are emitted, the start point (first on-curve point, or the implied midpoint of the first two
+off-curve points) and the rounding of implied midpoints (integer division truncating toward zero,
+in font units) follow x/image's iterator so that the two segment lists can be compared literally. -/
+
+inductive Seg where
+  | move (x y : Int)
+  | line (x y : Int)
+  | quad (cx cy x y : Int)
+deriving Repr, DecidableEq
+
+structure SegState where
+  firstOn : Option (Int × Int) := none
+  firstOff : Option (Int × Int) := none
+  lastOff : Option (Int × Int) := none
+
+def midPt (p q : Int × Int) : Int × Int := ((p.1 + q.1).tdiv 2, (p.2 + q.2).tdiv 2)
+
+/-- closing a contour -/
+def closeSegs (st : SegState) : List Seg :=
+  let fon := st.firstOn.getD (0, 0)
+  match st.firstOff, st.lastOff with
+  | none, none => [.line fon.1 fon.2]
+  | none, some lo => [.quad lo.1 lo.2 fon.1 fon.2]
+  | some fo, none => [.quad fo.1 fo.2 fon.1 fon.2]
+  | some fo, some lo =>
+    let m := midPt lo fo
+    [.quad lo.1 lo.2 m.1 m.2, .quad fo.1 fo.2 fon.1 fon.2]
+
+def contourSegs : List Pt → SegState → List Seg
+  | [], st => closeSegs st
+  | pt :: rest, st =>
+    let p := (pt.x, pt.y)
+    match st.firstOn with
+    | none =>
+      if pt.onCurve then .move p.1 p.2 :: contourSegs rest { st with firstOn := some p }
+      else
+        match st.firstOff with
+        | none => contourSegs rest { st with firstOff := some p }
+        | some fo =>
+          let m := midPt fo p
+          .move m.1 m.2 :: contourSegs rest { st with firstOn := some m, lastOff := some p }
+    | some _ =>
+      match st.lastOff with
+      | none =>
+        if pt.onCurve then .line p.1 p.2 :: contourSegs rest st
+        else contourSegs rest { st with lastOff := some p }
+      | some lo =>
+        if pt.onCurve then .quad lo.1 lo.2 p.1 p.2 :: contourSegs rest { st with lastOff := none }
+        else
+          let m := midPt lo p
+          .quad lo.1 lo.2 m.1 m.2 :: contourSegs rest { st with lastOff := some p }
+
+def outlineSegs (o : Outline) : List Seg := o.contours.flatMap fun c => contourSegs c {}
+
 /-! ## loca -/
 
 /-! `loca`: "The offsets must be in ascending order" (non-decreasing: an empty glyph has equal
